@@ -169,6 +169,7 @@ func main() {
 
 	if err := app.Run(os.Args); err != nil {
 		fmt.Fprint(os.Stderr, err)
+		os.Exit(1)
 	}
 }
 
